@@ -19,13 +19,11 @@ UTILITY = -1
 
 def inv(env, s, T):
     A, N = env.num_agents, env.num_nodes
-    cols = jnp.arange(N)
     return {
         "node_types_in_range": (s.node_types >= -1) & (s.node_types <= A - 1),
         "adjacency_is_0_1": (s.adj_matrix == 0) | (s.adj_matrix == 1),
         "positions_are_nodes": (s.positions >= 0) & (s.positions < N),
-        "node_edges_name_their_column": jnp.all((s.node_edges == -1) | (s.node_edges == cols[None, None, :]), axis=-1),
-        "connected_index_names_its_node": jnp.all((s.connected_nodes_index == -1) | (s.connected_nodes_index == cols[None, :]), axis=-1),
+        "node_edges_in_range": (s.node_edges >= -1) & (s.node_edges < N),  # entries are -1 (no / masked edge) or a node index
         "counter": (s.step_count >= 0) & (s.step_count < T),
     }
 
@@ -128,13 +126,35 @@ def problems(env, cfg, tier):
         out.update(b)
         out["C01.step_obs_is_observation_fn_of_new_state"] = o.node_types == env._state_to_observation(s2).node_types
         i2 = inv(env, s2, Tc)
-        for k in ("node_types_in_range", "adjacency_is_0_1", "positions_are_nodes", "node_edges_name_their_column"):
+        for k in ("node_types_in_range", "positions_are_nodes"):
             out["C01.inv_" + k] = i2[k]
+        out["C01.inv_adjacency_is_0_1"] = jnp.all(i2["adjacency_is_0_1"], axis=-1)
+        # the edge tables of the new state are `update_active_edges` of the old ones (3888 entries, syntactic); that this
+        # function keeps every entry in range is its function-level contract (`MMST.update_active_edges`)
+        from jumanji.environments.routing.mmst.utils import update_active_edges
+        out["C01.inv_node_edges_are_update_active_edges_of_the_old_tables"] = jnp.all(
+            s2.node_edges == update_active_edges(env.num_agents, s.node_edges, s2.positions, s.node_types), axis=-1)
         return out
 
     step01 = dict(title=f"MMST.step_bounds@{cfg}", args=(state, a), requires=req01, ensures=ens01, props=("C01",), workers=3,
                   targets=[type(env).step, type(env)._state_to_observation],
                   note=f"time_limit = {Tc} (the configuration's), bounds read from env.observation_spec")
+
+    # update_active_edges alone: every entry stays in range (entries are kept or masked with -1)
+    def req_edges(edges, pos, types):
+        N = env.num_nodes
+        return {"in_range": (edges >= -1) & (edges < N), "positions": (pos >= 0) & (pos < N)}
+
+    def ens_edges(edges, pos, types):
+        from jumanji.environments.routing.mmst.utils import update_active_edges
+        new = update_active_edges(env.num_agents, edges, pos, types)
+        # one obligation per table row (36 entries) -- 3 x 36 rows
+        return {"C01.update_active_edges_in_range": jnp.all((new >= -1) & (new < env.num_nodes), axis=-1),
+                "canary.update_active_edges_is_identity": new[1, 0, 1] == edges[1, 0, 1]}
+
+    from jumanji.environments.routing.mmst import utils as MU
+    edgesp = dict(title=f"MMST.update_active_edges@{cfg}", args=(state.node_edges, state.positions, state.node_types), requires=req_edges,
+                  ensures=ens_edges, props=("C01",), workers=3, targets=[MU.update_active_edges], note="function-level contract (Inv preservation of the edge tables)")
 
     # reset: the split-graph generator (nested loops) is a contract boundary
     def gen_post(g, key):
@@ -153,4 +173,4 @@ def problems(env, cfg, tier):
 
     reset = dict(title=f"MMST.reset@{cfg}", args=(state, jnp.zeros((2,), jnp.uint32)), requires=gen_post, ensures=reset_ens, workers=3,
                  targets=[type(env).reset], note="generator replaced by its post-condition (contract boundary; the generator's own contract is C10)")
-    return [step, obsp, step01, reset]
+    return [step, obsp, step01, edgesp, reset]
